@@ -128,6 +128,9 @@ func runSession(se session) {
 	ts := &rig.TestServer{Opts: rig.ServerOpts{ListenIP: "127.0.0.1", TLS: se.TLS}}
 	fmt.Sscanf(srv.addr()[strings.LastIndex(srv.addr(), ":")+1:], "%d", &ts.Port)
 	dials := &rig.DialTracker{}
+	if se.Program == "record-stall" {
+		dials.SendBuf = 8192
+	}
 	pc, err := rig.NewPlayClient(ts, rig.ClientOpts{Name: fmt.Sprintf("c12-%d", se.ID), Proto: se.Proto, ReadTimeout: cliTimeout, WriteTimeout: cliTimeout, URLOverride: us,
 		Mutate: func(c *gortsplib.Client) {
 			c.RequestBackChannels = se.BackCh
@@ -186,7 +189,7 @@ func runSession(se session) {
 		}
 		step("Play", func() error { _, e := c.Play(nil); return e })
 		time.Sleep(20 * time.Millisecond)
-	case se.Program == "record":
+	case se.Program == "record" || se.Program == "record-stall":
 		d := rig.MakeDesc([]int{1, 1})
 		if !step("Announce", func() error { _, e := c.Announce(u, d); return e }) {
 			break
@@ -206,6 +209,38 @@ func runSession(se session) {
 			break
 		}
 		r := rand.New(rand.NewSource(se.Seed))
+		if se.Program == "record-stall" {
+			// the server has stopped reading: write until the socket and the queue are full, then
+			// PAUSE while the writer is blocked in a write (every call must still return)
+			refused, streak := 0, 0
+			payload := vlib.RandBytes(r, 1400)
+			for i := 0; i < 20000 && streak < 30; i++ {
+				pk := &rtp.Packet{Header: rtp.Header{Version: 2, PayloadType: 96, SequenceNumber: uint16(i), Timestamp: uint32(i) * 3000}, Payload: payload}
+				if c.WritePacketRTP(d.Medias[0], pk) != nil {
+					refused++
+					streak++ // the queue stays full: the writer is blocked in a write
+				} else {
+					streak = 0
+				}
+			}
+			emit("C", map[string]any{"n": "record-stall:writes-refused-queue-full", "v": refused})
+			step("Pause", func() error {
+				_, e := c.Pause()
+				res := "ok"
+				if e != nil {
+					res = "error"
+					for _, w := range []string{"i/o timeout", "timed out", "queue is full", "EOF", "reset", "closed"} {
+						if strings.Contains(e.Error(), w) {
+							res = w
+							break
+						}
+					}
+				}
+				emit("C", map[string]any{"n": "record-stall:pause-result:" + res, "v": 1})
+				return e
+			})
+			break
+		}
 		for i := 0; i < 5; i++ {
 			pk := &rtp.Packet{Header: rtp.Header{Version: 2, PayloadType: 96, SequenceNumber: uint16(i), Timestamp: uint32(i) * 3000}, Payload: vlib.RandBytes(r, 100)}
 			if !step("WritePacketRTP", func() error { return c.WritePacketRTP(d.Medias[0], pk) }) {
